@@ -848,7 +848,104 @@ func sectionOf(kind string, id int, g *gen, chunks []string) verifh.Section {
 		s.Ops = append(s.Ops, "s "+esc(c))
 	}
 	s.Ops = append(s.Ops, "fmt")
+	// round 4: several calls on one AST, several parser instances at once, format.File (every 5th / 9th / 11th program)
+	h := 0
+	for _, c := range chunks {
+		h = h*31 + len(c)
+	}
+	if h%5 == 0 {
+		s.Ops = append(s.Ops, "again")
+	}
+	if h%9 == 1 {
+		s.Ops = append(s.Ops, "inter")
+	}
+	if h%11 == 2 {
+		s.Ops = append(s.Ops, "file")
+	}
 	return s
+}
+
+// ---------------------------------------------------------------- round 4: token soups for the scanner
+
+var c20DurUnits = []string{"ns", "µs", "ms", "s", "m", "h"}
+
+// duration: valid compound durations (1h2m3s4ms5µs6ns in the scanner's order), and near misses
+func (g *gen) lexDuration() string {
+	n := func() string { return g.r.PickS("0", "1", "3", "10", "250", "007", "1234567890") }
+	switch g.r.Intn(6) {
+	case 0:
+		return n() + g.r.PickS(c20DurUnits...)
+	case 1: // compound, descending units (what the scanner's state machine accepts)
+		from := g.r.Intn(len(c20DurUnits))
+		var b strings.Builder
+		for i := len(c20DurUnits) - 1 - from; i >= 0; i-- {
+			if g.r.Intn(3) != 0 || b.Len() == 0 {
+				b.WriteString(n() + c20DurUnits[i])
+			}
+		}
+		return b.String()
+	case 2: // random unit order
+		var b strings.Builder
+		for i, k := 0, g.r.Range(2, 4); i < k; i++ {
+			b.WriteString(n() + g.r.PickS(c20DurUnits...))
+		}
+		return b.String()
+	case 3: // unit followed by letters / a delimiter / nothing
+		return n() + g.r.PickS(c20DurUnits...) + g.r.PickS("ec", "our", "x", ")", "//c", "/*c*/", ",", "-", "_", "s", "1", "")
+	case 4: // cut in the middle of a unit
+		return n() + g.r.PickS("n", "µ", "n1", "µ1", "m1", "h1", "s1", "ms1", "1m2", "n)", "µ ")
+	default:
+		return n()
+	}
+}
+
+func (g *gen) lexAtom() string {
+	switch g.r.Intn(16) {
+	case 0, 1:
+		return g.lexDuration()
+	case 2:
+		return g.r.PickS("interface{}", "interface {}", "interface{", "interface", "interfaces{}", "xinterface{}", "interface{}{}", "interface{ }")
+	case 3:
+		return g.r.PickS(".", "..", "...", "....", ".....", ". .", "..x", "...x", "a.b", "1.5")
+	case 4:
+		return g.r.PickS("@doc", "@handler", "@server", "@docs", "@doc1", "@doc_x", "@Doc", "@x", "@", "@ doc", "@1", "@@doc", "@handlerfoo", "@doc(")
+	case 5:
+		return g.r.PickS("\"a b\"", "\"\"", "``", "`a\nb`", "\"a\\\"b\"", "\"a", "`a", "\"a`", "`a\"", "\"a\nb\"", "\"//x\"", "`/*`")
+	case 6:
+		return g.r.PickS("//c", "// c \t", "/* c */", "/**/", "/***/", "/* * / */", "/*", "/* c *", "/* c /", "/", "/ /", "/*/", "//", "/**\n * x/y\n */")
+	case 7:
+		return g.r.PickS("-", "*", "(", "[", "{", ",", ")", "]", "}", ";", ":", "=", "==", ":=", "->")
+	case 8:
+		return g.r.PickS("#", "$", "%", "&", "!", "?", "<", ">", "|", "\\", "^", "~", "'", "+", "é", "日本", "µ", "\u00a0", "\u2028")
+	case 9:
+		return g.r.PickS("_", "_a", "a_1", "A1_b2", "a1", "1a", "1_a", "_1", "a-b", "a.b", "get", "returns", "map", "any")
+	case 10:
+		return g.r.PickS("0", "00", "123", "9876543210", "1e3", "0x1f", "1_000")
+	default:
+		return g.ident()
+	}
+}
+
+// lexSoup: a token soup; the scanner must tokenise it exactly as its model does and must not lose a character
+func (g *gen) lexSoup() []string {
+	var chunks []string
+	for i, k := 0, g.r.Range(1, 6); i < k; i++ {
+		var b strings.Builder
+		for j, m := 0, g.r.Range(1, 7); j < m; j++ {
+			b.WriteString(g.lexAtom())
+			b.WriteString(g.r.PickS(" ", " ", "", "", "\n", "\t", " \n ", "\r\n", "\f", "\v"))
+		}
+		chunks = append(chunks, b.String())
+	}
+	return chunks
+}
+
+// lexValid: a small valid program around one scanner-level atom in a position where the grammar admits its token kind
+func (g *gen) lexValid() []string {
+	d := g.lexDuration()
+	sep := g.r.PickS("", " ", "\n", "//c\n", "/*c*/", " // c\n")
+	return []string{fmt.Sprintf("@server(%stimeout: %s%s)\nservice %s {\n\t@handler %s\n\tget /%s\n}\n",
+		g.r.PickS("", "prefix: /a-b/c\n", "group: a_1\n"), d, sep, g.ident(), g.ident(), g.ident())}
 }
 
 // c20Classes: the known defect classes of the unchanged formatter (each one is a finding, see props/C20.json).
@@ -906,6 +1003,16 @@ func c20Gen(r *verifh.Rng) []verifh.Section {
 				g.comments = i % 2
 			}
 			secs = append(secs, sectionOf("valid", i, g, g.program()))
+		}
+	}
+	// round 4: scanner streams - token soups (mostly invalid programs) and durations inside a valid @server block
+	nlex := verifh.Scale(300, 6000)
+	for i := 0; i < nlex; i++ {
+		g := &gen{r: r.Fork(), tricky: true}
+		if i%4 == 3 {
+			secs = append(secs, sectionOf("lexv", i, g, g.lexValid()))
+		} else {
+			secs = append(secs, sectionOf("lex", i, g, g.lexSoup()))
 		}
 	}
 	// every position x every comment form, in isolation
